@@ -139,7 +139,9 @@ impl Runtime {
     fn enter_indirect(&mut self, line: Line) {
         self.cont = State::Stopped;
         if line.is_empty() {
-            self.dirty = self.listing.remove(line.number()).is_some();
+            if self.listing.remove(line.number()).is_some() {
+                self.dirty = true;
+            }
         } else {
             self.listing.insert(line);
             self.dirty = true;
